@@ -385,7 +385,7 @@ class Ctx:
         self.cov["trace_events"] += len(lines)
         return n_exec - rejected
 
-    def validate_collect(self, module, trace_path, key_of, cfg=None, env=None, what_of=None):
+    def validate_collect(self, module, trace_path, key_of, cfg=None, env=None, what_of=None, max_report=None):
         """For trace specs whose events are independent and which collect the line numbers of rejected events in a TLC register
         (printed as <<"REJECTED-EVENTS", <<...>>>> by the postcondition): one TLC run, every rejected event becomes a violation."""
         lines = [l for l in open(trace_path).read().splitlines() if l.strip()]
@@ -399,7 +399,7 @@ class Ctx:
         if r.rc == 124 or "Parsing or semantic analysis failed" in r.out or m is None or r.depth - 1 != len(lines):
             raise EngineError("trace validation %s failed to run to the end:\n%s" % (module, r.out[-3000:]))
         rejected = [int(x) for x in re.findall(r"\d+", m.group(1))]
-        for i in rejected:
+        for i in (rejected if max_report is None else rejected[:max_report]):
             bad = json.loads(lines[i - 1])
             self.violation(key_of([bad], bad), what_of([bad], bad) if what_of else "event rejected by %s: %s" % (module, lines[i - 1][:300]), {"trace_spec": module, "rejected_event": bad})
         self.cov["traces_validated_against_impl"] += len(lines)
